@@ -58,7 +58,7 @@ type decodedReq struct {
 // decodeRequestObject judges one JSON value against the documented shape {query, variables, operationName}.
 func decodeRequestObject(raw json.RawMessage) (verdict, *decodedReq) {
 	var obj map[string]json.RawMessage
-	trim := bytes.TrimSpace(raw)
+	trim := trimJSONSpace(raw)
 	if len(trim) == 0 || trim[0] != '{' {
 		return vUndecodable, nil
 	}
@@ -107,7 +107,7 @@ func decodeRequestObject(raw json.RawMessage) (verdict, *decodedReq) {
 	}
 	res.Query = *qs
 	if vr, ok := obj["variables"]; ok {
-		t := bytes.TrimSpace(vr)
+		t := trimJSONSpace(vr)
 		if !bytes.Equal(t, []byte("null")) {
 			if len(t) == 0 || t[0] != '{' {
 				return vUndecodable, nil
@@ -151,7 +151,7 @@ func hasDuplicateKeys(obj []byte) bool {
 
 // decodeBody judges a JSON body: single object or list of objects.
 func decodeBody(body []byte) (verdict, []*decodedReq, bool) {
-	trim := bytes.TrimSpace(body)
+	trim := trimJSONSpace(body)
 	// a byte order mark or other junk before the value is not JSON
 	if len(trim) == 0 {
 		return vUndecodable, nil, false
@@ -312,7 +312,7 @@ func judge(c *HTTPCase) (verdict, []*decodedReq, bool) {
 		if len(fm) == 0 {
 			return vEither, reqs, batch // a multipart request without files: left open
 		}
-		if hasDuplicateKeys(bytes.TrimSpace([]byte(maps[0]))) || len(maps) > 1 {
+		if hasDuplicateKeys(trimJSONSpace([]byte(maps[0]))) || len(maps) > 1 {
 			v = vEither
 		}
 		used := map[string]int{}
@@ -533,7 +533,7 @@ func c07World(t *rapid.T) *world.World {
 
 var hostileBodies = []string{
 	`[null]`, `[1]`, `null`, `[]`, `[[]]`, `{}`, `[{}]`, `""`, `0`, `true`, `[{"query":"{a}"},null]`, `{"query":null}`, `{"query":""}`,
-	`{"query":5}`, `{"query":"{a}","variables":[]}`, `{"query":"{a}","variables":"x"}`, `{"query":"{a}","operationName":{}}`,
+	"\f[]", "\v{\"query\":\"{ __typename }\"}", "\u00a0[]", `{"query":5}`, `{"query":"{a}","variables":[]}`, `{"query":"{a}","variables":"x"}`, `{"query":"{a}","operationName":{}}`,
 	`{"query":"{a}","operationName":5}`, "\xef\xbb\xbf" + `{"query":"{a}"}`, `{"query":"{a}"} trailing`, `{"query":"{a}"}{"query":"{b}"}`,
 	`[{"query":"{a}"}`, `{"query":"{a}","query":"{b}"}`, `{"Query":"{a}"}`, `{"QUERY":"{ __typename }"}`, `"[" {"query":"{a}"}`,
 	`{"query":"{ __typename }"}`, `{"query":"query { __typename }"}`, `{"query":"{ __schema { types { name } } __typename }"}`,
@@ -954,4 +954,10 @@ func init() {
 		f, _ := checkC07(&c)
 		return f, nil
 	}
+}
+
+// trimJSONSpace removes JSON whitespace (space, tab, CR, LF) - not the wider Unicode set of bytes.TrimSpace: a form feed
+// or vertical tab before the value makes the body invalid JSON.
+func trimJSONSpace(b []byte) []byte {
+	return bytes.Trim(b, " \t\r\n")
 }
